@@ -37,14 +37,17 @@ class CopyPool(object):
     """pool.map contract: order preserving; every job runs on its own copy
     of the function and its bound object (process isolation)."""
 
-    def __init__(self, size):
+    def __init__(self, size, unroll=None):
         self.size = size
         self.jobs = 0
+        self.unroll = unroll
 
     def map(self, f, xs):
         out = []
         for x in xs:
             self.jobs += 1
+            if self.unroll is not None and hasattr(x, 'multinomial'):
+                limit(x, self.unroll)
             out.append(copy.deepcopy(f)(x))
         return out
 
@@ -108,7 +111,8 @@ def nb_sample(W, cfg):
     d = b.n_dim
     n = cfg.get('n', 1)
     limit(U.rng, cfg.get('unroll', 4))
-    pool = CopyPool(cfg['pool']) if cfg.get('pool') else None
+    pool = CopyPool(cfg['pool'], cfg.get('unroll', 4)) if cfg.get('pool') \
+        else None
     pre = dict(ns=b.n_sample, nr=b.n_reject, ons=U.n_sample, onr=U.n_reject,
                cache=len(b.points))
     # count the rows the outer bound hands to the network filter
@@ -119,10 +123,14 @@ def nb_sample(W, cfg):
         handed['calls'] += 1
         handed['n'] += int(k)
         return orig_outer(k)
-    U.sample = outer_sample
+    if pool is None:
+        # (workers own deep copies of the bound; a wrapper installed on the
+        # parent's union would be shared with them)
+        U.sample = outer_sample
     ok, out = call(W, 'C07:nautilus-sample-no-raise',
                    lambda: b.sample(n, pool=pool))
-    U.sample = orig_outer
+    if pool is None:
+        U.sample = orig_outer
     if not ok:
         return
     W.require(tuple(out.shape) == (n, d), 'C07:sample-shape', str(out.shape))
@@ -216,6 +224,19 @@ def nb_pool_merge(W, cfg):
                                 else W.same(x, y) for x, y in zip(p, q))
     W.require(good, 'C08:pool-merge-points-in-worker-order',
               '%d rows from %d workers' % (len(got), len(results)))
+    if good and b.shift is not None:
+        # worker caches are in the shifted frame: returned rows are the
+        # workers' rows shifted back once, kept rows are the workers' rows
+        for j, (p, q) in enumerate(zip(got, rows)):
+            if j < len(out):
+                q = b.shift.transform(np.array([q], dtype=float),
+                                      inverse=True)[0]
+                q = [q[k] for k in range(d)]
+            for k in range(d):
+                W.require(W.same(p[k], q[k]),
+                          'C08:pool-merge-points-in-worker-order',
+                          'row %d coordinate %d (phase shift applied once '
+                          'on exit)' % (j, k))
     # workers use distinct generator streams derived from the bound's rng
     W.require(W.unseeded_draws == 0,
                   'C11:no-draw-from-unseeded-generator', '')
@@ -422,3 +443,87 @@ def nb_contains(W, cfg):
                                  k in list(cfg['periodic'])))
             W.require((not c[j]) or incube,
                       'C07:nautilus-contained-in-unit-cube', 'row %d' % j)
+
+
+def nb_compute(W, cfg):
+    """the real NautilusBound.compute with recording stand-ins for Union and
+    NeuralBound: the points every ellipsoid union of the bound is built from
+    (its construction points, in the shifted frame) have their largest
+    circular gap across the boundary in every periodic coordinate (C16), and
+    are exactly the live points log_l >= log_l_min (C07: these are the
+    points the outer bound has to enclose)."""
+    from .shift import mk_points, largest_gap
+    np = W.np
+    pkg = W.pkg
+    mod = pkg.nautilus
+    d, n = cfg['d'], cfg['n']
+    periodic = cfg.get('periodic')
+    pts, rows = mk_points(W, n, d)
+    log_l = [W.real('ll_%d' % j) for j in range(n)]
+    lmin = W.real('ll_min')
+    live = [log_l[j] >= lmin for j in range(n)]
+    some = False
+    for c in live:
+        some = world_or(W, some, c)
+    W.assume(some)
+    calls = []
+
+    class _Member(object):
+        def contains(self, points):
+            return np.ones(len(points), dtype=bool)
+
+    class RecUnion(object):
+        def __init__(self, k):
+            self.bounds = [_Member()]
+            self.log_v = W.real('rec_lv_%d' % k)
+
+        @classmethod
+        def compute(cls, points, **kw):
+            calls.append(dict(rows=[[points[j][k] for k in range(d)]
+                                    for j in range(len(points))],
+                              bound_class=kw.get('bound_class')))
+            return cls(len(calls))
+
+        def split(self, allow_overlap=True):
+            return False
+
+        def trim(self):
+            return False
+
+    class RecNeural(object):
+        @classmethod
+        def compute(cls, *a, **kw):
+            return cls()
+
+    old = mod.Union, mod.NeuralBound
+    mod.Union, mod.NeuralBound = RecUnion, RecNeural
+    try:
+        ok, b = call(W, 'C16:nautilus-compute-no-raise',
+                     lambda: mod.NautilusBound.compute(
+                         pts, np.array(log_l, dtype=float), lmin,
+                         W.real('lv_target'), n_networks=0,
+                         periodic=None if periodic is None else
+                         np.array(periodic, dtype=int),
+                         rng=StubRNG(stream=1, draws=0)))
+    finally:
+        mod.Union, mod.NeuralBound = old
+    if not ok:
+        return
+    W.require(len(calls) == 2, 'C16:two-unions-built', '%d' % len(calls))
+    W.require((b.shift is not None) == (periodic is not None),
+              'C16:shift-present-iff-periodic', '')
+    n_live = sum(1 for c in live if bool(c))
+    for ci, rec in enumerate(calls):
+        Q = rec['rows']
+        W.require(len(Q) == n_live, 'C07:union-built-from-the-live-points',
+                  'call %d got %d of %d' % (ci, len(Q), n_live))
+        for k in (periodic or []):
+            xs = [q[k] for q in Q]
+            g = largest_gap(W, xs)
+            for j, t in enumerate(xs):
+                W.require(world._and(W.leq(g / 2, t), W.leq(t, 1 - g / 2)),
+                          'C16:largest-gap-across-boundary-in-the-bound',
+                          'union %d coordinate %d point %d' % (ci, k, j))
+            for t in xs:
+                W.require(world._and(W.leq(0, t), t < 1),
+                          'C16:shifted-construction-point-in-unit', '')
